@@ -110,6 +110,9 @@ def history(draw, broker):
                 ops.append({"op": "finish", "c": pc})
             else:
                 ops.append({"op": "unpause", "c": pc})
+        if draw(st.integers(0, 9)) == 0:
+            # a second application object over the same broker connects it again (idempotent): held messages stay settleable
+            ops.append({"op": "reconnect", "client": draw(st.sampled_from(clients))})
         if draw(st.integers(0, 5)) == 0:
             # several consume() calls in flight at once (two clients racing for the same messages), then collected
             for c in draw(st.lists(st.integers(0, 3), min_size=2, max_size=3, unique=True)):
